@@ -95,6 +95,23 @@ func (r *runner) prop(id, key, detail, cse, what string) {
 	r.res.Mismatch(vh.Mismatch{ID: id, Kind: "prop", Key: key, Detail: detail, Case: cse, PropFail: true, What: what})
 }
 
+// openAlarm decides whether a difference between the implementation's and the model's Open
+// verdict is a broken tie.  For the committed opening (and for equivocated ones) both must
+// accept.  For a changed opening the property is one-sided: only "implementation accepts what
+// the model rejects" (or a panic) is an alarm; an implementation that is stricter than the
+// model — rejects a degenerate coincidence the model accepts, refuses a key the model admits —
+// is counted but not reported.
+func (r *runner) openAlarm(honest bool, impl, model string) bool {
+	if impl == model {
+		return false
+	}
+	if honest || impl == "panic" || impl == "1" || model == "keyerr" {
+		return true // incl. a key the model refuses (g = h, identity) but the implementation admits
+	}
+	r.res.Distribution["changed-opening-implementation-stricter-than-model"]++
+	return false
+}
+
 // ---- small helpers -----------------------------------------------------------------------
 
 func zh(x *big.Int) string { return vh.ZHex(x) }
